@@ -441,10 +441,12 @@ theorem applyFunction_quiet (fuel : Nat) (f : FuncVal) (args : List Obj) (st : S
 /-! ### reads -/
 
 /-- the binding behind the reference `.ref re rn` (handed out for the name `nm`) is one the purity
-test trusts: it holds a function value, or `nm` is all-caps and the frame is a depth-0 frame -/
+test trusts: a binding of a DEPTH-0 frame that holds a function value or whose name `nm` is all-caps.
+(Since repo fix 066677f a function held by a variable of an enclosing CALL - `g` in
+`mk=func(g){func(x){g(x)}}` - is not trusted any more: reading it is a miss, like any other captured value.) -/
 def Trusted (st : St) (nm : String) (re : Nat) (rn : String) : Prop :=
-  ∃ fr, st.frames[re]? = some fr ∧
-    ((isConstant nm = true ∧ fr.depth = 0) ∨ ∃ fn, lookupStore fr.store rn = some (.func fn))
+  ∃ fr, st.frames[re]? = some fr ∧ fr.depth = 0 ∧
+    (isConstant nm = true ∨ ∃ fn, lookupStore fr.store rn = some (.func fn))
 
 theorem depth_setIfInBounds (st : St) (e : Nat) (f : Frame) (g : Frame → Frame) (hg : (g f).depth = f.depth)
     (h : st.frames[e]? = some f) (i : Nat) (fi : Frame)
@@ -548,14 +550,14 @@ theorem makeRef_go_quiet (orig : Nat) (name : String) (fuel e : Nat) (st : St) (
       refine ⟨re, rn, rfl, ?_⟩
       obtain ⟨fre', hfre', hdep⟩ := depth_setIfInBounds st orig forig
         (fun f => { f with store := setStore f.store name (.ref re rn) }) rfl hfor re fre (by rw [← hs1f]; exact hfre)
-      refine ⟨fre', hfre', ?_⟩
-      have hc' : (isConstant name && fre.depth == 0) = true ∨ isFuncObj obj = true := by
-        cases h1 : (isConstant name && fre.depth == 0) <;> cases h2 : isFuncObj obj <;> simp [h1, h2] at hc ⊢
+      have hc' : (isConstant name && fre.depth == 0) = true ∨ (isFuncObj obj && fre.depth == 0) = true := by
+        cases h1 : (isConstant name && fre.depth == 0) <;> cases h2 : (isFuncObj obj && fre.depth == 0) <;> simp [h1, h2] at hc ⊢
       rcases hc' with h | h
-      · left
-        simp only [Bool.and_eq_true, beq_iff_eq] at h
-        exact ⟨h.1, by rw [hdep]; exact h.2⟩
-      · right
+      · simp only [Bool.and_eq_true, beq_iff_eq] at h
+        exact ⟨fre', hfre', by rw [hdep]; exact h.2, Or.inl h.1⟩
+      · simp only [Bool.and_eq_true, beq_iff_eq] at h
+        obtain ⟨h, hd0⟩ := h
+        refine ⟨fre', hfre', by rw [hdep]; exact hd0, Or.inr ?_⟩
         cases obj with
         | func fn =>
           simp only [refTo] at hre
@@ -567,7 +569,7 @@ theorem makeRef_go_quiet (orig : Nat) (name : String) (fuel e : Nat) (st : St) (
 
 /-- what a `Get` on frame `e` that does not move `e`'s counter can have returned:
 nothing; the frame's own function (`self` / its own name); a value bound in the frame's own store; or
-a reference to a trusted binding (`Trusted`: a function value, or an all-caps name of a depth-0 frame) —
+a reference to a trusted binding (`Trusted`: a function value or an all-caps name, in a depth-0 frame) —
 judged in the state the lookup started from, or in that state with the frame's own stale reference
 removed (the referenced variable had been deleted and the name was looked up again) -/
 inductive PureRead (st : St) (e : Nat) (name : String) : Option Obj → Prop
@@ -693,14 +695,14 @@ theorem envGet_quiet (e : Nat) (name : String) (st : St) (r : Option Obj)
             omega
           · next hc =>
             cases hm
-            refine .outer re rn rn ⟨fre, hfr, ?_⟩
-            have hc' : (isConstant rn && fre.depth == 0) = true ∨ isFuncObj tgt = true := by
-              cases h1 : (isConstant rn && fre.depth == 0) <;> cases h2 : isFuncObj tgt <;> simp [h1, h2] at hc ⊢
+            have hc' : (isConstant rn && fre.depth == 0) = true ∨ (isFuncObj tgt && fre.depth == 0) = true := by
+              cases h1 : (isConstant rn && fre.depth == 0) <;> cases h2 : (isFuncObj tgt && fre.depth == 0) <;> simp [h1, h2] at hc ⊢
             rcases hc' with h | h
-            · left
-              simp only [Bool.and_eq_true, beq_iff_eq] at h
-              exact h
-            · right
+            · simp only [Bool.and_eq_true, beq_iff_eq] at h
+              exact .outer re rn rn ⟨fre, hfr, h.2, Or.inl h.1⟩
+            · simp only [Bool.and_eq_true, beq_iff_eq] at h
+              obtain ⟨h, hd0⟩ := h
+              refine .outer re rn rn ⟨fre, hfr, hd0, Or.inr ?_⟩
               unfold refValue at hV
               rw [run_bind, run_getFrame, hfr] at hV
               dsimp only at hV
